@@ -187,7 +187,7 @@ Section Refuse.
     (forall file, refused t e (info_sf C cdig t file)) /\
     (forall ip ifl, refused t e (flatten C cdig t ip ifl)).
   Proof.
-    intros H. unfold refused, create_folder, create_sf, verify_like, verify_dh, info, info_sf, flatten. rewrite H.
+    intros H. unfold refused, create_folder, create_sf, verify_like, verify_core, verify_dh, info, info_sf, flatten. rewrite H.
     repeat split; reflexivity.
   Qed.
   (* the refusal writes nothing: the tree is the same and the observation has no written generation and no
